@@ -7,10 +7,11 @@ The theorems speak about quantised objects (every real carried as the digits the
 -/
 import Iodata.Lemmas.Fmt.FcidumpW
 import Iodata.Lemmas.Fmt.PoscarW
+import Iodata.Lemmas.Fmt.FchkO
 import Iodata.Gen.LayoutsW
 
 namespace Iodata.Props.C15W
-open Iodata.Chars Iodata.Decimal Iodata.Fmt Iodata.Gen.LayoutsW
+open Iodata.Chars Iodata.Decimal Iodata.Fmt Iodata.Gen.Layouts Iodata.Gen.LayoutsW
 
 /-! ## FCIDUMP (full file) -/
 
@@ -28,6 +29,12 @@ theorem fcidump_generations (L : FcidumpW.Layout) (hL : FcidumpW.LayoutOK L) (o 
   rw [FcidumpW.load_dump L hL o h] at h₁
   cases h₁
   rw [FcidumpW.load_dump L hL _ (FcidumpW.dom_norm L o h), FcidumpW.norm_idem]
+
+/-- FCIDUMP: the source has the shape the theorems assume (layout side condition, the seven `print` calls, the
+`int(round(…))` conversions that make the reloaded integers fixed points, reader literals and word positions). -/
+theorem fcidump_current :
+    FcidumpW.LayoutOK fcidumpL ∧ fcidump_writes = FcidumpW.expectedWrites fcidumpL ∧ fcidumpSource = FcidumpW.expectedSource := by
+  decide +kernel
 
 /-! ## POSCAR (text layer)
 
@@ -55,11 +62,47 @@ theorem poscar_generations (T : Tables) (L : PoscarW.Layout) (hL : PoscarW.Layou
   cases h₁
   rw [PoscarW.load_dump T L hL _ (PoscarW.dom_norm T L hL o h), PoscarW.norm_idem L hL]
 
+/-- POSCAR: the source has the shape the theorems assume. -/
+theorem poscar_current :
+    PoscarW.LayoutOK poscarL ∧ poscar_writes = PoscarW.expectedWrites poscarL ∧ poscarSource = PoscarW.expectedSource := by
+  decide +kernel
+
 /-- POSCAR: in exact arithmetic the two coordinate maps are inverse in both directions for every non-singular cell, so a
 second cycle would print the same direct coordinates and reload the same Cartesian ones; the drift of the real code is
 floating-point rounding only. -/
 theorem poscar_exact_cycle (cell : Poscar.M3) (h : Poscar.det cell ≠ 0) (s r : Poscar.V3) :
     Poscar.toFrac cell (Poscar.toCart cell s) = s ∧ Poscar.toCart cell (Poscar.toFrac cell r) = r :=
   ⟨Poscar.toFrac_toCart cell h s, Poscar.toCart_toFrac cell h r⟩
+
+/-! ## FCHK object mapping -/
+
+/-- FCHK objects: the object returned by the first reload is a fixed point of save/reload (same attributes, same values,
+same level of theory in the density labels, header already lower-cased) and stays in the domain; the second file holds a
+sub-list of the fields of the first (attributes without a reader row are gone after the first cycle and stay gone). -/
+theorem fchkobj_norm_stable (L : Fchk.Layout) (hL : Fchk.LayoutOK L) (hA : Chars.upper L.absent = L.absent) (Rn : Fchk.RunTypes)
+    (hR : Fchk.RunTypesOK L Rn) (W R : List FchkO.Row) (o : FchkO.Obj)
+    (hT : FchkO.TablesOK (FchkO.resolve (FchkO.levelOf L.absent o.lot) W) R) (h : FchkO.Dom L W o) :
+    FchkO.norm L Rn W R (FchkO.norm L Rn W R o).obj = FchkO.norm L Rn W R o ∧ FchkO.Dom L W (FchkO.norm L Rn W R o).obj :=
+  ⟨FchkO.norm_idem L hL hA Rn hR W R o hT h, FchkO.dom_norm L hL hA Rn hR W R o hT h⟩
+
+/-- FCHK objects: generations. -/
+theorem fchkobj_generations (L : Fchk.Layout) (hL : Fchk.LayoutOK L) (hA : Chars.upper L.absent = L.absent) (Rn : Fchk.RunTypes)
+    (hR : Fchk.RunTypesOK L Rn) (W R : List FchkO.Row) (o : FchkO.Obj) (x₁ : FchkO.Loaded)
+    (hT : FchkO.TablesOK (FchkO.resolve (FchkO.levelOf L.absent o.lot) W) R) (h : FchkO.Dom L W o)
+    (h₁ : FchkO.load L Rn R (FchkO.dump L Rn W o) = .ok x₁) :
+    FchkO.load L Rn R (FchkO.dump L Rn W x₁.obj) = .ok x₁ := by
+  rw [FchkO.load_dump L hL Rn hR W R o hT h] at h₁
+  cases h₁
+  have hlv : FchkO.levelOf L.absent (FchkO.norm L Rn W R o).obj.lot = FchkO.levelOf L.absent o.lot :=
+    FchkO.level_stable L hL hA o.lot h.1.2.2.1 h.2.2
+  rw [FchkO.load_dump L hL Rn hR W R _ (hlv ▸ hT) (FchkO.dom_norm L hL hA Rn hR W R o hT h), FchkO.norm_idem L hL hA Rn hR W R o hT h]
+
+/-- FCHK: the tables probed from the source satisfy the hypotheses of the two theorems above at every level of theory:
+in particular the writer's and the reader's quadrupole index vectors are inverse (otherwise xz/yz would alternate between
+generations) and the mass unit factors cancel (otherwise the masses would grow by 1822.89 per cycle). -/
+theorem fchk_tables_current :
+    (∀ lv ∈ FchkO.levels ++ [fchkL.absent], FchkO.TablesOK (FchkO.resolve lv fchkW) fchkR) ∧
+    Chars.upper fchkL.absent = fchkL.absent ∧ Fchk.LayoutOK fchkL ∧ Fchk.RunTypesOK fchkL fchkRunTypes := by
+  decide +kernel
 
 end Iodata.Props.C15W
